@@ -162,6 +162,7 @@ func renderScreen(ui *consoleui.UI, screenLines int) (crash string, err error, o
 }
 
 func TestC22(t *testing.T) {
+	runWitnesses(t, "C22")
 	col := ev.New("C22", "rapid state machine over the real console UI (hooks feed lines to processCommand and render the "+
 		"screen like Run does): program = generated RV64IMA code (1-24 instructions, one to several blocks) with the real "+
 		"disassembler mode and the emulation factory of main.go. Each action is one input line from a grammar: every "+
